@@ -3,7 +3,7 @@
 //
 //   RUN <id> [first-op-index]                    start of a run (stream slots are reset)
 //   CFG <slot> <budget> <mode> <state> <flags>   configure stream slot (sink fault as an explicit op)
-//   OP <name> <seed> <p0> <p1> <slot> <fault> <a> <b>
+//   OP <name> <seed> <p0> <p1> <slot> <fault> <a> <b> [value-class]
 //        fault: none | alloc k | allocfrom k | alloceach | sink budget mode | sinkeach
 //   END
 #include "c20_rt.hpp"
@@ -272,8 +272,9 @@ void reset_slot(int s, long budget, int mode, int state, unsigned flags) {
   if (stt != std::ios::goodbit) sl.os.setstate(stt);
 }
 
-void execute(const OpEntry& e, std::uint64_t seed, long p0, long p1, int slot, const std::string& fault, long fa, long fb, Stats& st) {
+void execute(const OpEntry& e, std::uint64_t seed, long p0, long p1, int slot, const std::string& fault, long fa, long fb, int vc, Stats& st) {
   Ctx c;
+  c.vclass = vc;
   bool stream_op = (e.flags & vrt::kUsesStream) != 0;
   // warm-up: libstdc++ initialises some facilities lazily on first use (locale facets ...), which
   // allocates; run once uncounted so that allocation indices do not depend on process history
@@ -406,14 +407,15 @@ int main(int argc, char** argv) {
       std::string name, fault;
       unsigned long long seed = 0;
       long p0 = -1, p1 = -1, fa = 0, fb = 0;
-      int slot = -1;
+      int slot = -1, vc = -1;
       is >> name >> seed >> p0 >> p1 >> slot >> fault >> fa >> fb;
+      if (!(is >> vc)) vc = -1;
       auto it = byname.find(name);
       if (it == byname.end()) {
         say("U %ld %ld %s\n", g_run, g_opidx, name.c_str());
       } else {
         say("B %ld %ld %s\n", g_run, g_opidx, name.c_str());
-        execute(*it->second, seed, p0, p1, slot, fault, fa, fb, st);
+        execute(*it->second, seed, p0, p1, slot, fault, fa, fb, vc, st);
       }
       ++g_opidx;
     } else if (cmd == "END") {
